@@ -414,6 +414,8 @@ type EncodeOpts struct {
 	LEPadBit uint8
 	Unix     int64 // sender's clock (key slot and minute stamp)
 	NoHint   bool
+	// Tweak, when set, may falsify header fields after they were computed (hostile peers).
+	Tweak func(s *Seg)
 }
 
 // EncodeDatagram seals one segment as a UDP datagram. Length and padding fields of s are
@@ -426,6 +428,9 @@ func EncodeDatagram(s *Seg, c Cred, o EncodeOpts) []byte {
 	a := aeadFor(c, RoundSlot(o.Unix))
 	body, tag := s.sealBody(func(pt []byte) []byte { return a.Seal(nil, nonce, pt, nil) }, o)
 	s.Timestamp = uint32(o.Unix / 60)
+	if o.Tweak != nil {
+		o.Tweak(s)
+	}
 	out := append([]byte(nil), nonce...)
 	out = a.Seal(out, nonce, s.MarshalMeta(), nil)
 	if s.IsDataAck() {
@@ -606,6 +611,9 @@ func (e *StreamEncoder) Encode(s *Seg, o EncodeOpts) []byte {
 		return a.Seal(nil, e.nonce, pt, nil)
 	}, o)
 	s.Timestamp = uint32(o.Unix / 60)
+	if o.Tweak != nil {
+		o.Tweak(s)
+	}
 	out = a.Seal(out, metaNonce, s.MarshalMeta(), nil)
 	if s.IsDataAck() {
 		out = append(out, o.Pad1...)
